@@ -160,6 +160,17 @@ def run_cases(ck, res, n_cases, n_interval):
             and enga.close(math.cos(bq[2]), math.cos(q[2])) and enga.close(math.sin(bq[2]), math.sin(q[2]))
         if not ok or not (bq[0] >= 0 and 0 <= bq[1] <= math.pi and -math.pi < bq[2] <= math.pi):
             ck.fail('conversion/spherical-roundtrip', 'cartesian_to_spherical(spherical_to_cartesian(q)) != q (mod 2 pi) or out of range', {'q': q}, expected=q, actual=bq)
+        # near (but off) the polar axis, both hemispheres: the round trip must stay exact to rounding there too (a formula
+        # that is an identity over the reals but ill-conditioned at the poles, e.g. acos(z / r), is not)
+        kx = 2 + ci % 6
+        thn = 10.0 ** (-kx) if (ci // 6) % 2 == 0 else math.pi - 10.0 ** (-kx)
+        qn = [dy(r, 0.5, 3, 3), thn, dy(r, 0, 6, 3)]
+        Qn = [enga.col(torch, [v], grad=False) for v in qn]
+        bn = [float(b) for b in O.cartesian_to_spherical(*O.spherical_to_cartesian(*Qn))]
+        ck.add_case(('conv-sph-near-axis', str(qn)))
+        if not (abs(bn[1] - qn[1]) <= 2e-13 and enga.close(bn[0], qn[0], rel=enga.EXACT) and enga.close(math.cos(bn[2]), math.cos(qn[2])) and enga.close(math.sin(bn[2]), math.sin(qn[2]))):
+            ck.fail('conversion/spherical-roundtrip/near-axis', f'cartesian_to_spherical(spherical_to_cartesian(q)) loses accuracy near the polar axis: theta {qn[1]!r} -> {bn[1]!r}',
+                    {'q': qn}, expected=qn, actual=bn)
         xyz = [dy(r, -2, 2, 4) or 0.5, dy(r, -2, 2, 4) or 0.5, dy(r, -2, 2, 4)]
         P = [enga.col(torch, [v], grad=False) for v in xyz]
         fwd = O.spherical_to_cartesian(*O.cartesian_to_spherical(*P))
